@@ -23,6 +23,131 @@ var govcTables = [][][2]string{
 	{{"/:p", "*"}, {"/s/*", "POST"}},
 	{{"/u/:a/:b", "GET"}, {"/u/:a", "POST"}},
 	{{"/*", "GET"}},
+	{{"/files/:name", "GET"}, {"/files/*", "GET"}, {"/files/:name/meta", "GET"}},
+	{{"/aaa//bbb", "GET"}, {"/x//:id", "GET"}, {"/y//*", "*"}, {"/a/:x", "GET"}, {"/a//b", "GET"}},
+	{{"/", "POST"}, {"/:p", "GET"}, {"/lit", "*"}, {"/lit", "GET"}},
+}
+
+// ---- reference router, written from the property statement (greedy walk, no backtracking) ----
+type govcRefNode struct {
+	lit   map[string]*govcRefNode
+	param *govcRefNode
+	any   *govcRefNode
+	meth  map[string]string // method -> route tag
+	names map[string][]string
+}
+
+func govcRefBuild(table [][2]string) *govcRefNode {
+	root := &govcRefNode{}
+	for _, r := range table {
+		n := root
+		var names []string
+		for _, seg := range strings.Split(r[0], "/") {
+			if seg == "" {
+				continue
+			}
+			if seg == "*" {
+				if n.any == nil {
+					n.any = &govcRefNode{}
+				}
+				n = n.any
+				names = append(names, routeParamAny)
+				break
+			}
+			if seg[0] == ':' {
+				if n.param == nil {
+					n.param = &govcRefNode{}
+				}
+				n = n.param
+				names = append(names, seg[1:])
+				continue
+			}
+			if n.lit == nil {
+				n.lit = map[string]*govcRefNode{}
+			}
+			if n.lit[seg] == nil {
+				n.lit[seg] = &govcRefNode{}
+			}
+			n = n.lit[seg]
+		}
+		if n.meth == nil {
+			n.meth, n.names = map[string]string{}, map[string][]string{}
+		}
+		n.meth[r[1]] = r[1] + " " + r[0]
+		n.names[r[1]] = names
+	}
+	return root
+}
+
+func (n *govcRefNode) pick(method string) (tag string, names []string, ok bool) {
+	if n == nil || n.meth == nil {
+		return "", nil, false
+	}
+	if t, ok := n.meth[method]; ok {
+		return t, n.names[method], true
+	}
+	if t, ok := n.meth["*"]; ok {
+		return t, n.names["*"], true
+	}
+	return "", nil, false
+}
+
+// govcRefRoute: the route the documented walk selects for a path that starts with '/', and the bound values
+func govcRefRoute(root *govcRefNode, path, method string) (tag string, binds map[string]string) {
+	if path == "/" {
+		if t, _, ok := root.pick(method); ok {
+			return t, map[string]string{}
+		}
+	}
+	n := root
+	var vals []string
+	rest := path[1:]
+	for {
+		i := strings.IndexByte(rest, '/')
+		seg, last := rest, true
+		if i >= 0 {
+			seg, last = rest[:i], false
+		}
+		if seg == "" && !last {
+			rest = rest[i+1:]
+			continue // empty segment that is not the final one
+		}
+		switch {
+		case seg != "" && n.lit[seg] != nil:
+			n = n.lit[seg]
+		case n.param != nil:
+			vals = append(vals, seg)
+			n = n.param
+		case n.any != nil:
+			vals = append(vals, rest)
+			t, names, ok := n.any.pick(method)
+			if !ok {
+				return "noroute", nil
+			}
+			binds = map[string]string{}
+			for k, nm := range names {
+				binds[nm] = vals[k]
+			}
+			return t, binds
+		default:
+			return "noroute", nil
+		}
+		if last {
+			break
+		}
+		rest = rest[i+1:]
+	}
+	t, names, ok := n.pick(method)
+	if !ok {
+		return "noroute", nil
+	}
+	binds = map[string]string{}
+	for k, nm := range names {
+		if k < len(vals) {
+			binds[nm] = vals[k]
+		}
+	}
+	return t, binds
 }
 
 func govcCandidates(m map[string]string) (paths, methods []string) {
@@ -33,7 +158,7 @@ func govcCandidates(m map[string]string) (paths, methods []string) {
 			paths = append(paths, p[:i]+"/"+p[i:], p[:i]+"a"+p[i:])
 		}
 	}
-	paths = append(paths, "", "/", "a", "//", "/a/", "/a//b", "*", "/:x", "/u/1/2", "/s/")
+	paths = append(paths, "", "/", "a", "//", "/a/", "/a//b", "*", "/:x", "/u/1/2", "/s/", "/files/a.txt", "/files/", "/files/a.txt/meta", "/aaa/bbb", "/aaa//bbb", "/x/7", "/y/p/q", "/a/b", "/lit", "/zzz")
 	meth, ok := m["p_method"]
 	if ok {
 		methods = append(methods, meth)
@@ -98,6 +223,49 @@ func TestGovcReplay(t *testing.T) {
 						report("ServeHTTP(table %d, %q, %q): %d handler calls", ti, path, method, calls)
 					}
 				}()
+				// (3) which route, and what it sees, against the reference walk (paths with a leading slash)
+				if strings.HasPrefix(path, "/") {
+					func() {
+						defer func() { recover() }()
+						mux := NewMux()
+						gotTag, gotBinds := "", map[string]string{}
+						names := map[string]bool{}
+						for _, r := range table {
+							for _, seg := range strings.Split(r[0], "/") {
+								if len(seg) > 1 && seg[0] == ':' {
+									names[seg[1:]] = true
+								}
+							}
+						}
+						names[routeParamAny] = true
+						for _, r := range table {
+							tag := r[1] + " " + r[0]
+							mux.Handle(r[0], r[1], func(s *Store) {
+								gotTag = tag
+								if s.I == nil || s.I.Path != r[0] || s.I.Method != r[1] {
+									gotTag = tag + " (RouteInfo of another route)"
+								}
+								for nm := range names {
+									if v, ok := s.P.Get(nm); ok {
+										gotBinds[nm] = v
+									}
+								}
+							})
+						}
+						mux.HandleNoRoute(func(s *Store) { gotTag = "noroute" })
+						mux.ServeHTTP(httptest.NewRecorder(), &http.Request{Method: method, URL: &url.URL{Path: path}, Header: http.Header{}})
+						wantTag, wantBinds := govcRefRoute(govcRefBuild(table), path, method)
+						if gotTag != wantTag {
+							report("table %d %v: %s %q dispatched to %q, the documented walk selects %q", ti, table, method, path, gotTag, wantTag)
+						} else if wantTag != "noroute" {
+							for nm, v := range wantBinds {
+								if gotBinds[nm] != v {
+									report("table %d: %s %q -> %s binds %s=%q, want %q", ti, method, path, wantTag, nm, gotBinds[nm], v)
+								}
+							}
+						}
+					}()
+				}
 			}
 		}
 	}
